@@ -686,6 +686,13 @@ class Ctx:
                 (za + (n - 1) * zc < zb) if pos else (za + (n - 1) * zc > zb))
             next_out = (za + n * zc >= zb) if pos else (za + n * zc <= zb)
             goal = z3.And(last_in, next_out)
+            # cheap incremental query first; only a candidate that survives it gets the fresh-context check
+            self.fs.push()
+            self.fs.add(z3.Not(goal))
+            quick = self.fs.check()
+            self.fs.pop()
+            if quick == z3.sat:
+                continue
             st, _, _, _ = solve(_flatten(self.pc) + [z3.Not(goal)], 5000, want_model=False)
             if st == "unsat":
                 return PList([simp(za + i * zc) for i in range(n)])
@@ -1482,7 +1489,9 @@ class Ctx:
         out = []
         self.worklist = []
         tries = 0
-        while len(out) < n and tries < n * 6:
+        # wall-clock budget: input generation must never dominate a check (pinning is best effort)
+        deadline = time.time() + float(os.environ.get("PYVC_SAMPLE_BUDGET_S", "12" if n <= 100 else "90"))
+        while len(out) < n and tries < n * 6 and time.time() < deadline:
             tries += 1
             self.reset_path([])
             self._random_free = rng
@@ -1506,12 +1515,13 @@ class Ctx:
             finally:
                 self._random_free = None
             s = z3.Solver()
-            s.set("timeout", 3000)
+            s.set("timeout", 1500)
             for c in self.pc:
                 s.add(c)
             if s.check() != z3.sat:
                 continue
             m = s.model()
+            s.set("timeout", 300)
             consts = []
             _collect_consts(list(self.inputs.values()), consts)
             # symbolic sequences: pin a length from a pool, then elements
@@ -1540,7 +1550,7 @@ class Ctx:
                         s.pop()
             rng.shuffle(consts)
             for c, sort in consts:
-                if rng.random() < 0.15:
+                if rng.random() < 0.15 or time.time() > deadline:
                     continue
                 if sort == "Int":
                     v = rng.choice(self.INT_POOL) if rng.random() < 0.6 else rng.randint(-40, 250)
